@@ -281,9 +281,11 @@ func expectFor(g *model.GenPkg, f *model.Field) (accExpect, error) {
 		case protoreflect.BoolKind:
 			e.has = []string{"return (" + L + " != false)", "return " + L}
 		case protoreflect.FloatKind:
-			e.has = []string{"return ((" + L + " != 0) || math.Signbit(float64(" + L + ")))", "return ((" + L + " != float32(0)) || math.Signbit(float64(" + L + ")))"}
+			e.has = []string{"return ((" + L + " != 0) || math.Signbit(float64(" + L + ")))", "return ((" + L + " != float32(0)) || math.Signbit(float64(" + L + ")))",
+				"return (math.Float32bits(" + L + ") != 0)"} // the bit pattern is non-zero exactly when the value is not +0
 		case protoreflect.DoubleKind:
-			e.has = []string{"return ((" + L + " != 0) || math.Signbit(" + L + "))", "return ((" + L + " != float64(0)) || math.Signbit(" + L + "))"}
+			e.has = []string{"return ((" + L + " != 0) || math.Signbit(" + L + "))", "return ((" + L + " != float64(0)) || math.Signbit(" + L + "))",
+				"return (math.Float64bits(" + L + ") != 0)"}
 		case protoreflect.StringKind:
 			e.has = []string{"return (" + L + ` != "")`, "return (len(" + L + ") != 0)", "return (len(" + L + ") > 0)"}
 		case protoreflect.BytesKind:
